@@ -135,7 +135,12 @@ pub struct ParseContext {
     pub macros: Rc<Macro>,
     // messages
     pub messages: Rc<RefCell<Vec<String>>>,
+    /// how many .include directives lead to the current file
+    pub include_depth: usize,
 }
+
+/// Nesting limit of .include (a file that includes itself would never end)
+pub const MAX_INCLUDE_DEPTH: usize = 64;
 
 impl ParseContext {
     pub fn new(
@@ -155,6 +160,7 @@ impl ParseContext {
                 macroses: RefCell::new(hashmap! {}),
             }),
             messages: Rc::new(RefCell::new(vec![])),
+            include_depth: 0,
         }
     }
 
@@ -227,6 +233,7 @@ pub fn parse_file_internal(context: &ParseContext) -> Result<(), Error> {
         segments,
         macros,
         messages,
+        include_depth,
     } = context.clone();
     let include_paths = include_paths.borrow_mut();
 
@@ -280,6 +287,7 @@ pub fn parse_file_internal(context: &ParseContext) -> Result<(), Error> {
         segments,
         macros,
         messages,
+        include_depth,
     };
 
     parse(source.as_str(), &context)?;
